@@ -10,7 +10,7 @@ sys.path.insert(0, os.path.dirname(os.path.abspath(__file__)))
 from wasix import *
 
 NAMES = ['f', 'g', 'sub']
-OFLAGS = {0: '0', 1: 'CREAT', 5: 'CREAT|EXCL', 8: 'TRUNC', 9: 'CREAT|TRUNC', 2: 'DIRECTORY'}   # oflags bits: creat 1, directory 2, excl 4, trunc 8
+OFLAGS = {0: '0', 1: 'CREAT', 5: 'CREAT|EXCL', 8: 'TRUNC', 9: 'CREAT|TRUNC', 2: 'DIRECTORY', 10: 'DIRECTORY|TRUNC', 3: 'DIRECTORY|CREAT'}   # oflags bits: creat 1, directory 2, excl 4, trunc 8
 FDFLAGS = {0: '0', 1: 'APPEND'}
 RIGHTS = {1: 'R', 2: 'W', 3: 'RW'}
 SHAPES = {0: '[]', 1: '[3]', 2: '[0]', 3: '[2,0,3]', 4: '[1,1,1]'}
@@ -51,6 +51,8 @@ def alphabet(info, depth):
             for o in OFLAGS:
                 for fl in FDFLAGS:
                     for r in RIGHTS:
+                        if o in (10, 3) and (fl != 0 or r == 1):
+                            continue        # DIRECTORY combined with TRUNC / CREAT: write access, no append (keeps level 3 affordable)
                         ops.append('o,%s,%d,%d,%d,%d' % (n, o, fl, r, ns))
     for fd, name in info:
         for ns in nss:
@@ -154,7 +156,7 @@ def main(tier):
     conf = {k: v for k, v in h.conflicts.items() if k in OPNAME.values()}
     if conf:
         print('note: definitions in wasi.c whose C signature differs from the specification signature of the import: %s' % json.dumps(conf))
-    rule = ('breadth-first search over histories of path_open(name in f,g,sub x 6 oflags x 2 fdflags x 3 rights), fd_write/fd_read (5 iovec shapes), '
+    rule = ('breadth-first search over histories of path_open(name in f,g,sub x 8 oflags x 2 fdflags x 3 rights), fd_write/fd_read (5 iovec shapes), '
             'fd_pwrite/fd_pread (5 shapes x offsets 0,2,7,2^31,2^32+3; 2 shapes x offsets 2^63, 2^64-1), fd_seek (4 offsets x whence 0..3, both encodings), fd_tell, '
             'fd_filestat_get (both layouts), fd_close on the descriptors the history opened; one history per distinct canonical state '
             '(contents of f and g, and target/access/append/position of every live descriptor) is extended; every step is compared with the POSIX twin; '
